@@ -1,4 +1,5 @@
 import Mp4ff.Model.Bits
+import Mp4ff.Model.Sei
 import Mp4ff.Driver.Util
 /-! driver ops for the bit layer (C13 correspondence) -/
 namespace Mp4ff.Driver.C13
@@ -68,6 +69,7 @@ def erStep (st : ER × List String) (a : String) : Option (ER × List String) :=
   | ["by", k] => do
     let (r', bs) := ER.readBytes (← k.toNat?) r []
     pure (r', acc ++ [if r'.err then "nil" else toHex bs])
+  | ["mo"] => let (r', more) := Mp4ff.Sei.moreRbspData r; some (r', acc ++ [if more then "m1" else "m0"])
   | _ => none
 
 def er (args : List String) : String :=
